@@ -11,6 +11,17 @@ import (
 	"time"
 )
 
+// Thorough is set by the driver for the thorough tier: bounded explorations then use their deeper bounds.
+var Thorough bool
+
+// depth picks the exploration bound of the current tier.
+func depth(quick, thorough int) int {
+	if Thorough {
+		return thorough
+	}
+	return quick
+}
+
 type Status string
 
 const (
